@@ -477,6 +477,13 @@ def check_objects(ck, hb, quick, replay):
         for q, (op, i) in enumerate(h):
             stats["mesh"]["op"]["load" if op == 0 else "SurfSourceMat"] = stats["mesh"]["op"].get("load" if op == 0 else "SurfSourceMat", 0) + 1
             if q < len(ht) and op == 0: stats["mesh"]["status"][str(ht[q][0])] = stats["mesh"]["status"].get(str(ht[q][0]), 0) + 1
+        # everything but the private geometry (status, #mesh vertices, #triangles, flags) must be that of a fresh Mesh
+        fq = [q for q in range(min(len(h), len(ht), len(it))) if h[q][0] == 0 and (ht[q][0:1] + ht[q][2:7]) != (it[q][0:1] + it[q][2:7])]
+        if fq:
+            q = fq[0]
+            ck.violation("mesh: status/sizes/flags differ after history (%s)" % (names if len(h) <= 3 else "%d operations" % len(h)),
+                         "operation %d of [%s] on one Mesh gives (status,#geometry vertices,#vertices,#triangles,outermost,current_barrier,isolated)=%s, a fresh Mesh gives %s" % (q, names, ht[q][:7], it[q][:7]), rp)
+            continue
         diff = [q for q in range(len(h)) if q >= len(ht) or q >= len(mt) or ht[q] != mt[q]]
         if diff:
             q = diff[0]
